@@ -490,7 +490,15 @@ impl Node {
             Action::Cancel { slot } => {
                 if let Some((key, uid)) = self.keys[*slot as usize].take() {
                     rec::ev(Ev::Cancel { origin: node + 1, uid });
-                    key.cancel();
+                    // Cancelling through any clone of the key is equivalent.
+                    if uid % 3 == 0 {
+                        let c = key.clone();
+                        drop(key);
+                        c.clone().cancel();
+                        drop(c);
+                    } else {
+                        key.cancel();
+                    }
                 }
             }
             Action::DropAuto { slot } => {
@@ -1260,7 +1268,13 @@ fn exec_cmd(spec: &Arc<Spec>, ci: usize, cmd: &Cmd, built: &mut Built, sh: &Arc<
             Cmd::Cancel { slot } => {
                 if let Some((key, kuid)) = built.drv_keys[*slot as usize].take() {
                     rec::ev(Ev::Cancel { origin: DRIVER, uid: kuid });
-                    key.cancel();
+                    if kuid % 3 == 0 {
+                        let c = key.clone();
+                        drop(key);
+                        c.cancel();
+                    } else {
+                        key.cancel();
+                    }
                 }
                 "cancel".into()
             }
